@@ -13,6 +13,9 @@ pub struct BudgetExceeded;
 #[derive(Default)]
 pub struct SimHandler {
     pub events: Cell<u64>,
+    /// sweep events + connect steps: the clock that cancellation points are counted on
+    pub ticks: Cell<u64>,
+    pub connect_steps: Cell<u64>,
     pub budget: Cell<u64>,
     pub cancel_at: Cell<u64>,
     pub no_shortcut: Cell<bool>,
@@ -33,11 +36,27 @@ impl Handler for SimHandler {
         heap::off(|| {
             let n = self.events.get() + 1;
             self.events.set(n);
-            if n == self.cancel_at.get() {
+            let t = self.ticks.get() + 1;
+            self.ticks.set(t);
+            if t == self.cancel_at.get() {
                 std::panic::panic_any(Cancelled);
             }
             if n > self.budget.get() {
                 std::panic::panic_any(BudgetExceeded);
+            }
+            let y = self.yielder.borrow().clone();
+            if let Some(y) = y {
+                y();
+            }
+        })
+    }
+    fn on_connect_step(&self) {
+        heap::off(|| {
+            self.connect_steps.set(self.connect_steps.get() + 1);
+            let t = self.ticks.get() + 1;
+            self.ticks.set(t);
+            if t == self.cancel_at.get() {
+                std::panic::panic_any(Cancelled);
             }
             let y = self.yielder.borrow().clone();
             if let Some(y) = y {
